@@ -18,7 +18,7 @@ RULE = (
     "tuples of EXECUTED Gibbs / Metropolis-Hastings updates whose vector was compared with the independent posterior"
 )
 FAULT_KEYS = ["adversarial_choice", "shuffle"]
-PROBE_KEYS = ["sweep_kernels_extracted", "gibbs_draws_verified", "sweeps_full", "choice_fidelity_checked", "gibbs_vectors", "mh_pairs", "dup_state_move", "inbred_move", "skewed_freq_move", "exact_premise_checked", "underflow_skip",
+PROBE_KEYS = ["sweep_kernels_extracted", "gibbs_draws_verified", "sweeps_full", "choice_fidelity_checked", "gibbs_vectors", "mh_pairs", "dup_state_move", "inbred_move", "skewed_freq_move", "exact_premise_checked", "underflow_skip", "zero_frequency_allele_move",
               "cli_targets_compared", "cli_genotypes_compared", "cli_zero_frequency_allele", "cli_reference_masked", "cli_exact_array_compared", "cli_allele_filter"]
 OPTIONAL_PROBES = {"quick": ("underflow_skip",), "thorough": ("underflow_skip",)}
 COMPONENTS = {
